@@ -108,7 +108,7 @@ fn qd_check_double(got: &Result<Variant, LintError>, inner: &Result<Variant, Var
     }
 }
 
-//# harness qb_divide_integer_integer tier=quick label=complete props=C01,C06,C12 fn=rusty_linter/src/core/casting.rs::qb_divide
+//# harness qb_divide_integer_integer tier=quick tier.C01=thorough tier.C06=thorough label=complete props=C01,C06,C12 fn=rusty_linter/src/core/casting.rs::qb_divide
 harness!(qb_divide_integer_integer, 2, stub(rusty_variant::Variant::divide, any_divide), {
     let a = vs::i32();
     vs::assume(a >= -32768 && a <= 32767);
@@ -131,7 +131,7 @@ harness!(qb_divide_integer_integer, 2, stub(rusty_variant::Variant::divide, any_
     std::mem::forget(inner);
 });
 
-//# harness qb_divide_integer_long tier=quick label=complete props=C01,C06,C12 fn=rusty_linter/src/core/casting.rs::qb_divide
+//# harness qb_divide_integer_long tier=quick tier.C01=thorough tier.C06=thorough label=complete props=C01,C06,C12 fn=rusty_linter/src/core/casting.rs::qb_divide
 harness!(qb_divide_integer_long, 2, stub(rusty_variant::Variant::divide, any_divide), {
     let a = vs::i32();
     vs::assume(a >= -32768 && a <= 32767);
@@ -153,7 +153,7 @@ harness!(qb_divide_integer_long, 2, stub(rusty_variant::Variant::divide, any_div
     std::mem::forget(inner);
 });
 
-//# harness qb_divide_integer_single tier=quick label=complete props=C01,C06,C12 fn=rusty_linter/src/core/casting.rs::qb_divide
+//# harness qb_divide_integer_single tier=quick tier.C01=thorough tier.C06=thorough label=complete props=C01,C06,C12 fn=rusty_linter/src/core/casting.rs::qb_divide
 harness!(qb_divide_integer_single, 2, stub(rusty_variant::Variant::divide, any_divide), {
     let a = vs::i32();
     vs::assume(a >= -32768 && a <= 32767);
@@ -176,7 +176,7 @@ harness!(qb_divide_integer_single, 2, stub(rusty_variant::Variant::divide, any_d
     std::mem::forget(inner);
 });
 
-//# harness qb_divide_integer_double tier=quick label=complete props=C01,C06,C12 fn=rusty_linter/src/core/casting.rs::qb_divide
+//# harness qb_divide_integer_double tier=quick tier.C01=thorough tier.C06=thorough label=complete props=C01,C06,C12 fn=rusty_linter/src/core/casting.rs::qb_divide
 harness!(qb_divide_integer_double, 2, stub(rusty_variant::Variant::divide, any_divide), {
     let a = vs::i32();
     vs::assume(a >= -32768 && a <= 32767);
@@ -198,7 +198,7 @@ harness!(qb_divide_integer_double, 2, stub(rusty_variant::Variant::divide, any_d
     std::mem::forget(inner);
 });
 
-//# harness qb_divide_long_integer tier=quick label=complete props=C01,C06,C12 fn=rusty_linter/src/core/casting.rs::qb_divide
+//# harness qb_divide_long_integer tier=quick tier.C01=thorough tier.C06=thorough label=complete props=C01,C06,C12 fn=rusty_linter/src/core/casting.rs::qb_divide
 harness!(qb_divide_long_integer, 2, stub(rusty_variant::Variant::divide, any_divide), {
     let a = vs::i64();
     vs::assume(a >= -2147483648 && a <= 2147483647);
@@ -220,7 +220,7 @@ harness!(qb_divide_long_integer, 2, stub(rusty_variant::Variant::divide, any_div
     std::mem::forget(inner);
 });
 
-//# harness qb_divide_long_long tier=quick label=complete props=C01,C06,C12 fn=rusty_linter/src/core/casting.rs::qb_divide
+//# harness qb_divide_long_long tier=quick tier.C01=thorough tier.C06=thorough label=complete props=C01,C06,C12 fn=rusty_linter/src/core/casting.rs::qb_divide
 harness!(qb_divide_long_long, 2, stub(rusty_variant::Variant::divide, any_divide), {
     let a = vs::i64();
     vs::assume(a >= -2147483648 && a <= 2147483647);
@@ -242,7 +242,7 @@ harness!(qb_divide_long_long, 2, stub(rusty_variant::Variant::divide, any_divide
     std::mem::forget(inner);
 });
 
-//# harness qb_divide_long_single tier=quick label=complete props=C01,C06,C12 fn=rusty_linter/src/core/casting.rs::qb_divide
+//# harness qb_divide_long_single tier=quick tier.C01=thorough tier.C06=thorough label=complete props=C01,C06,C12 fn=rusty_linter/src/core/casting.rs::qb_divide
 harness!(qb_divide_long_single, 2, stub(rusty_variant::Variant::divide, any_divide), {
     let a = vs::i64();
     vs::assume(a >= -2147483648 && a <= 2147483647);
@@ -264,7 +264,7 @@ harness!(qb_divide_long_single, 2, stub(rusty_variant::Variant::divide, any_divi
     std::mem::forget(inner);
 });
 
-//# harness qb_divide_long_double tier=quick label=complete props=C01,C06,C12 fn=rusty_linter/src/core/casting.rs::qb_divide
+//# harness qb_divide_long_double tier=quick tier.C01=thorough tier.C06=thorough label=complete props=C01,C06,C12 fn=rusty_linter/src/core/casting.rs::qb_divide
 harness!(qb_divide_long_double, 2, stub(rusty_variant::Variant::divide, any_divide), {
     let a = vs::i64();
     vs::assume(a >= -2147483648 && a <= 2147483647);
@@ -286,7 +286,7 @@ harness!(qb_divide_long_double, 2, stub(rusty_variant::Variant::divide, any_divi
     std::mem::forget(inner);
 });
 
-//# harness qb_divide_single_integer tier=quick label=complete props=C01,C06,C12 fn=rusty_linter/src/core/casting.rs::qb_divide
+//# harness qb_divide_single_integer tier=quick tier.C01=thorough tier.C06=thorough label=complete props=C01,C06,C12 fn=rusty_linter/src/core/casting.rs::qb_divide
 harness!(qb_divide_single_integer, 2, stub(rusty_variant::Variant::divide, any_divide), {
     let a = vs::f32();
     vs::assume(a.is_finite());
@@ -309,7 +309,7 @@ harness!(qb_divide_single_integer, 2, stub(rusty_variant::Variant::divide, any_d
     std::mem::forget(inner);
 });
 
-//# harness qb_divide_single_long tier=quick label=complete props=C01,C06,C12 fn=rusty_linter/src/core/casting.rs::qb_divide
+//# harness qb_divide_single_long tier=quick tier.C01=thorough tier.C06=thorough label=complete props=C01,C06,C12 fn=rusty_linter/src/core/casting.rs::qb_divide
 harness!(qb_divide_single_long, 2, stub(rusty_variant::Variant::divide, any_divide), {
     let a = vs::f32();
     vs::assume(a.is_finite());
@@ -331,7 +331,7 @@ harness!(qb_divide_single_long, 2, stub(rusty_variant::Variant::divide, any_divi
     std::mem::forget(inner);
 });
 
-//# harness qb_divide_single_single tier=quick label=complete props=C01,C06,C12 fn=rusty_linter/src/core/casting.rs::qb_divide
+//# harness qb_divide_single_single tier=quick tier.C01=thorough tier.C06=thorough label=complete props=C01,C06,C12 fn=rusty_linter/src/core/casting.rs::qb_divide
 harness!(qb_divide_single_single, 2, stub(rusty_variant::Variant::divide, any_divide), {
     let a = vs::f32();
     vs::assume(a.is_finite());
@@ -354,7 +354,7 @@ harness!(qb_divide_single_single, 2, stub(rusty_variant::Variant::divide, any_di
     std::mem::forget(inner);
 });
 
-//# harness qb_divide_single_double tier=quick label=complete props=C01,C06,C12 fn=rusty_linter/src/core/casting.rs::qb_divide
+//# harness qb_divide_single_double tier=quick tier.C01=thorough tier.C06=thorough label=complete props=C01,C06,C12 fn=rusty_linter/src/core/casting.rs::qb_divide
 harness!(qb_divide_single_double, 2, stub(rusty_variant::Variant::divide, any_divide), {
     let a = vs::f32();
     vs::assume(a.is_finite());
@@ -376,7 +376,7 @@ harness!(qb_divide_single_double, 2, stub(rusty_variant::Variant::divide, any_di
     std::mem::forget(inner);
 });
 
-//# harness qb_divide_double_integer tier=quick label=complete props=C01,C06,C12 fn=rusty_linter/src/core/casting.rs::qb_divide
+//# harness qb_divide_double_integer tier=quick tier.C01=thorough tier.C06=thorough label=complete props=C01,C06,C12 fn=rusty_linter/src/core/casting.rs::qb_divide
 harness!(qb_divide_double_integer, 2, stub(rusty_variant::Variant::divide, any_divide), {
     let a = vs::f64();
     vs::assume(a.is_finite());
@@ -398,7 +398,7 @@ harness!(qb_divide_double_integer, 2, stub(rusty_variant::Variant::divide, any_d
     std::mem::forget(inner);
 });
 
-//# harness qb_divide_double_long tier=quick label=complete props=C01,C06,C12 fn=rusty_linter/src/core/casting.rs::qb_divide
+//# harness qb_divide_double_long tier=quick tier.C01=thorough tier.C06=thorough label=complete props=C01,C06,C12 fn=rusty_linter/src/core/casting.rs::qb_divide
 harness!(qb_divide_double_long, 2, stub(rusty_variant::Variant::divide, any_divide), {
     let a = vs::f64();
     vs::assume(a.is_finite());
@@ -420,7 +420,7 @@ harness!(qb_divide_double_long, 2, stub(rusty_variant::Variant::divide, any_divi
     std::mem::forget(inner);
 });
 
-//# harness qb_divide_double_single tier=quick label=complete props=C01,C06,C12 fn=rusty_linter/src/core/casting.rs::qb_divide
+//# harness qb_divide_double_single tier=quick tier.C01=thorough tier.C06=thorough label=complete props=C01,C06,C12 fn=rusty_linter/src/core/casting.rs::qb_divide
 harness!(qb_divide_double_single, 2, stub(rusty_variant::Variant::divide, any_divide), {
     let a = vs::f64();
     vs::assume(a.is_finite());
@@ -442,7 +442,7 @@ harness!(qb_divide_double_single, 2, stub(rusty_variant::Variant::divide, any_di
     std::mem::forget(inner);
 });
 
-//# harness qb_divide_double_double tier=quick label=complete props=C01,C06,C12 fn=rusty_linter/src/core/casting.rs::qb_divide
+//# harness qb_divide_double_double tier=quick tier.C01=thorough tier.C06=thorough label=complete props=C01,C06,C12 fn=rusty_linter/src/core/casting.rs::qb_divide
 harness!(qb_divide_double_double, 2, stub(rusty_variant::Variant::divide, any_divide), {
     let a = vs::f64();
     vs::assume(a.is_finite());
